@@ -81,12 +81,25 @@ func main() {
 	if err != nil {
 		fail("%v", err)
 	}
-	var names []string
+	nameSet := map[string]bool{}
 	for _, e := range ents {
 		n := e.Name()
 		if strings.HasSuffix(n, ".go") && !strings.HasSuffix(n, "_test.go") {
-			names = append(names, n)
+			nameSet[n] = true
 		}
+	}
+	for k, v := range ov { // files an overlay adds to / deletes from the package
+		if filepath.Dir(k) == dir && strings.HasSuffix(k, ".go") && !strings.HasSuffix(k, "_test.go") {
+			if v == "" {
+				delete(nameSet, filepath.Base(k))
+			} else {
+				nameSet[filepath.Base(k)] = true
+			}
+		}
+	}
+	var names []string
+	for n := range nameSet {
+		names = append(names, n)
 	}
 	sort.Strings(names)
 	fset := token.NewFileSet()
